@@ -633,7 +633,7 @@ pub fn run(repo: &str, unit_path: &str, canary: bool) -> std::result::Result<Run
                 // claim about the code. The body is then verified as it stands (and is undecided only if Verus cannot read it).
                 for (k, _) in &local.exprmap {
                     if !unit_exprmap_keys.contains(k) && !rw.used_expr.contains(k) {
-                        unused_local.push(json!({"fn": target, "exprmap": k}));
+                        unused_local.push(json!({"fn": target, "exprmap": k, "rename": o.get("rename")}));
                     }
                 }
                 rewrites.extend(rw.log.into_iter().map(|mut l| {
